@@ -54,7 +54,8 @@ func (c *messageCodec) DecodeTo(d *binary.Decoder, rv reflect.Value) (err error)
 	if v.ID, err = readBytes(d); err == nil {
 		if v.Channel, err = readBytes(d); err == nil {
 			if v.Payload, err = readBytes(d); err == nil {
-				if ttl, err := d.ReadUvarint(); err == nil {
+				var ttl uint64
+				if ttl, err = d.ReadUvarint(); err == nil {
 					v.TTL = uint32(ttl)
 					rv.Set(reflect.ValueOf(v))
 					return nil
